@@ -5,7 +5,6 @@ import (
 	"os"
 	"strings"
 
-	"github.com/benhoyt/goawk/internal/compiler"
 	"github.com/benhoyt/goawk/lexer"
 )
 
@@ -134,7 +133,21 @@ func VerifC12Output() {
 	}
 }
 
-// getline < name
+// run a one-statement BEGIN program inside the sandbox with NAME bound to the given string
+func (sb *verifSandbox) runBegin(stmt string, name string) error {
+	prog := verifParse(`BEGIN { ` + stmt + ` }`)
+	p := newInterp(prog)
+	// keep the sandbox configuration and stream tables of sb.p, run the new program's code
+	p.output, p.errorOutput, p.stdin = sb.p.output, sb.p.errorOutput, sb.p.stdin
+	p.noExec, p.noFileWrites, p.noFileReads = sb.p.noExec, sb.p.noFileWrites, sb.p.noFileReads
+	p.openFile, p.shellCommand = sb.p.openFile, sb.p.shellCommand
+	p.inputStreams, p.outputStreams, p.scanners = sb.p.inputStreams, sb.p.outputStreams, sb.p.scanners
+	p.globals[p.scalarIndexes["NAME"]] = str(name)
+	sb.p = p
+	return p.execute(prog.Compiled.Begin)
+}
+
+// getline < name (all variants go through the compiled getline opcodes)
 func VerifC12InputFile() {
 	sb := verifNewSandbox()
 	name := verifIOName()
@@ -146,7 +159,8 @@ func VerifC12InputFile() {
 		sb.p.inputStreams[name] = newInFileStream(verifNewFile(nil))
 		sb.p.scanners[name] = sb.p.newScanner(bytes.NewReader(nil), make([]byte, 16))
 	}
-	_, err := sb.p.getInputScannerFile(name)
+	stmt := []string{`r = (getline x < NAME)`, `r = (getline < NAME)`, `r = (getline arr["k"] < NAME)`}[verifIntRange(0, 2)]
+	err := sb.runBegin(stmt, name)
 	sb.checkCommon("getline < file")
 	if prior != 0 {
 		verifAssert(len(sb.opens) == 0, "getline < file: a name that is already open was opened again")
@@ -163,24 +177,18 @@ func VerifC12InputFile() {
 	}
 }
 
-// cmd | getline and system(cmd)
+// cmd | getline, system(cmd), print | cmd through the compiled opcodes
 func VerifC12Exec() {
 	sb := verifNewSandbox()
 	name := verifIOName()
-	var err error
-	which := verifIntRange(0, 1)
-	if which == 0 {
-		_, err = sb.p.getInputScannerPipe(name)
-	} else {
-		sb.p.push(str(name))
-		err = sb.p.callBuiltin(compiler.BuiltinSystem)
-	}
-	sb.checkCommon("cmd | getline / system()")
+	stmt := []string{`r = (NAME | getline x)`, `r = (NAME | getline)`, `r = system(NAME)`, `print "x" | NAME`, `printf "x" | NAME`}[verifIntRange(0, 4)]
+	err := sb.runBegin(stmt, name)
+	sb.checkCommon("cmd | getline / system() / print | cmd")
 	verifAssert(len(sb.opens) == 0, "starting a command opened a file")
 	if sb.noExec {
-		verifAssert(verifDenied(err, "NoExec"), "cmd | getline or system() under NoExec did not end with the NoExec error")
+		verifAssert(verifDenied(err, "NoExec"), "a command (cmd | getline, system(), print | cmd) under NoExec did not end with the NoExec error")
 	} else {
-		verifAssert(err == nil, "cmd | getline or system() failed although NoExec is not set")
+		verifAssert(err == nil, "a command failed although NoExec is not set")
 	}
 }
 
